@@ -8,6 +8,8 @@ mod verif_kani_trivia {
     fn k1_wschar() {
         let b: u8 = kani::any();
         assert!(WSCHAR.contains_token(b) == o_class::wschar(b));
+        // bytes accepted by this table reach `from_utf8_unchecked`: they must be ASCII (unsafe precondition)
+        assert!(!WSCHAR.contains_token(b) || b < 0x80, "table feeding from_utf8_unchecked admits a non-ASCII byte");
         kani::cover!(WSCHAR.contains_token(b));
         kani::cover!(!WSCHAR.contains_token(b));
     }
